@@ -29,7 +29,7 @@ package container
 //@ func (p *Parser) parseSingleImage
 //@   property C05 C17
 //@   requires p != nil && len(buf) >= 8
-//@   modifies *
+//@   modifies p
 //@   ensures result == nil ==> 8 + uint64(le32(buf, 4)) + uint64(le32(buf, 4) & 1) <= uint64(len(buf))
 //@   ensures result == nil ==> len(p.frames) == old(len(p.frames)) + 1
 //@   ensures result == nil ==> len(p.frames[len(p.frames)-1].Payload) == int(le32(buf, 4)) && base(p.frames[len(p.frames)-1].Payload) == base(buf) && offset(p.frames[len(p.frames)-1].Payload) == offset(buf) + 8
@@ -44,7 +44,7 @@ package container
 //@ func (p *Parser) parseVP8XChunks
 //@   property C05 C17 C16
 //@   requires p != nil
-//@   modifies *
+//@   modifies p
 //@   loop 0: invariant isAnim == old(p.features.HasAnim)
 //@   loop 0: invariant 0 <= animChunks && len(buf) <= old(len(buf)) && animChunks <= old(len(buf)) - len(buf)
 //@   loop 0: invariant !isAnim && animChunks == 0 ==> len(p.frames) == old(len(p.frames))
@@ -55,7 +55,7 @@ package container
 //@ func (p *Parser) parseExtSingleImage
 //@   property C05 C17
 //@   requires p != nil
-//@   modifies *
+//@   modifies p
 //@   loop 0: invariant len(p.frames) == old(len(p.frames))
 //@   loop 0: decreases len(buf)
 //@   ensures result == nil ==> len(p.frames) == old(len(p.frames)) + 1
